@@ -304,6 +304,18 @@ def const_str(node, module=None):
         a, b = const_str(node.left, module), const_str(node.right, module)
         if a is not None and b is not None:
             return a + b
+    if isinstance(node, ast.Name):
+        # a local bound exactly once in its function, to a string constant
+        fn = getattr(node, "parent", None)
+        while fn is not None and not isinstance(fn, (ast.FunctionDef, ast.AsyncFunctionDef)):
+            fn = getattr(fn, "parent", None)
+        if fn is not None:
+            stores = [x for x in ast.walk(fn) if isinstance(x, ast.Name) and x.id == node.id and isinstance(x.ctx, (ast.Store, ast.Del))]
+            if len(stores) == 1 and isinstance(getattr(stores[0], "parent", None), ast.Assign) and len(stores[0].parent.targets) == 1 \
+                    and stores[0].parent.targets[0] is stores[0]:
+                return const_str(stores[0].parent.value, module)
+            if stores:
+                return None
     if isinstance(node, ast.Name) and module is not None:
         v = module.constants.get(node.id)
         if v is not None:
